@@ -333,7 +333,12 @@ class SubProcPool:
             if stopping and ctx.cmd_key == self.JOBS_SUBMIT:
                 ctx.err = self.ERR_WORKFLOW_STOPPING
                 ctx.ret_code = self.RET_CODE_WORKFLOW_STOPPING
-                self._run_command_exit(ctx)
+                self._run_command_exit(
+                    ctx, bad_hosts=bad_hosts,
+                    callback=callback, callback_args=callback_args,
+                    callback_255=callback_255,
+                    callback_255_args=callback_255_args
+                )
             else:
                 proc = self._run_command_init(
                     ctx, bad_hosts, callback, callback_args,
@@ -423,10 +428,18 @@ class SubProcPool:
         self.close()
         # Drain queue
         while self.queuings:
-            ctx = self.queuings.popleft()[0]
+            (
+                ctx, bad_hosts, callback, callback_args,
+                callback_255, callback_255_args
+            ) = self.queuings.popleft()
             ctx.err = self.ERR_WORKFLOW_STOPPING
             ctx.ret_code = self.RET_CODE_WORKFLOW_STOPPING
-            self._run_command_exit(ctx)
+            self._run_command_exit(
+                ctx, bad_hosts=bad_hosts,
+                callback=callback, callback_args=callback_args,
+                callback_255=callback_255,
+                callback_255_args=callback_255_args
+            )
         # Kill remaining processes
         for value in self.runnings:
             proc = value[0]
